@@ -127,6 +127,9 @@ def cases(tier):
     out.append(Public(ls=[2], types="s", Ks=[1], Ms=[2]))
     out.append(Public(ls=[2, 1], types="sc", Ks=[1, 1], Ms=[1, 1]))
     out.append(Public(ls=[1, 2], types="cs", Ks=[1, 1], Ms=[1, 1]))
+    # atom labels are book-keeping only: equal labels on different centres (two fragments, two geometries), no labels, mixed
+    out.append(Public(ls=[0, 1], types="cc", Ks=[1, 1], Ms=[1, 1], icenter=[0, 0]))
+    out.append(Public(ls=[1, 1, 0], types="csc", Ks=[1, 1, 1], Ms=[1, 1, 1], icenter=[1, 1, 0], share={"2": 0}))
     # homonuclear: the same shell parameters on two centres, a second shell on the first centre
     out.append(Public(ls=[1, 1, 0], types="csc", Ks=[1, 1, 1], Ms=[1, 1, 1], twin={"1": 0}, share={"2": 0}))
     out.append(Asymm(ls=[1, 0, 1], types="ccs", Ks=[1, 1, 1], Ms=[1, 2, 1], n1=1))
